@@ -314,6 +314,20 @@ func (w *World) AddGateway(name string) *Gateway {
 	return g
 }
 
+// KeepClientFor does what the gateway's reconcile loop does for every cluster with
+// a global schema as far as connections are concerned: every 2 s
+// (LimiterReconcilePeriod) it asks its client sets for the client of the
+// upstream's shard leader, which creates that client - and only a leader the
+// instance has a client for gets its heartbeats.
+func (g *Gateway) KeepClientFor(up string) {
+	go func() {
+		for g.Alive {
+			_, _ = g.CS.ClientFor(up)
+			time.Sleep(2 * time.Second)
+		}
+	}()
+}
+
 func (g *Gateway) Stop() {
 	if g.Alive {
 		g.Alive = false
